@@ -610,6 +610,10 @@ Chunks == << <<97>>, <<0>>, <<255>>, <<195, 169>>, <<195>>, <<240, 159, 152, 128
              <<239, 191, 189>>, <<128>>, <<240, 159>>, <<10>>, <<244, 144, 128, 128>> >>
 RECURSIVE ByteString(_, _)
 ByteString(s, n) == IF n = 0 THEN <<>> ELSE Chunks[1 + Pick(s, 600 + n, Len(Chunks))] \o ByteString(s, n - 1)
+\* inputs of the pinned byte-class scenario whose byte length exceeds 255 while runes and tokens stay below it
+WideByteInputs == <<[b |-> [j \in 1..400 |-> <<240, 159, 152, 128>>[1 + ((j - 1) % 4)]]],
+                    [b |-> [j \in 1..270 |-> <<239, 191, 189>>[1 + ((j - 1) % 3)]]],
+                    [b |-> [j \in 1..300 |-> IF j % 3 = 0 THEN 97 ELSE IF j % 3 = 1 THEN 195 ELSE 169]]>>
 ByteInputs(s) == [k \in 1..40 |-> [b |-> ByteString(H(s, 700 + k), IF k = 1 THEN 0 ELSE 1 + Pick(s, 800 + k, 6))]]
 
 Hists(s, ninputs) ==
@@ -619,7 +623,9 @@ Hists(s, ninputs) ==
                             ELSE 1 + Pick(s, 910 + h * 7 + j, ninputs)]]
 
 Plan(G) ==
-  IF FAMILY = "reuse" THEN
+  IF FAMILY = "bytes" /\ G = ByteClassGrammar THEN   \* narrow index types: every pinned input fits uint8 in runes and in tokens, not in bytes
+    <<PlanEntry("", TRUE, 0, "uint32", FALSE), PlanEntry("", TRUE, 0, "uint8", FALSE), PlanEntry("", FALSE, 0, "uint8", FALSE)>>
+  ELSE IF FAMILY = "reuse" THEN
     <<PlanEntry("", TRUE, 0, "uint32", FALSE), PlanEntry("", TRUE, 1, "uint32", FALSE), PlanEntry("", TRUE, 4096, "uint32", FALSE),
       PlanEntry("", TRUE, 0, "uint16", FALSE), PlanEntry("", TRUE, 0, "uint64", FALSE), PlanEntry("", TRUE, 0, "uint", FALSE),
       PlanEntry("", FALSE, 1, "uint16", FALSE), PlanEntry("", FALSE, 0, "uint32", FALSE)>>
@@ -647,7 +653,7 @@ Scenario(n) ==
   [id |-> n, family |-> FAMILY, seed |-> SEED, grammar |-> G,
    text |-> IF FAMILY = "lex" THEN Render(G, SyntaxStyle(LexStyleOf(n))) ELSE Render(G, Style(G)),
    optsets |-> Fam.optsets,
-   inputs |-> IF FAMILY = "diag" THEN <<>> ELSE IF FAMILY = "bytes" THEN ByteInputs(H(SEED, n + 17)) ELSE Inputs(H(SEED, n + 17), G),
+   inputs |-> IF FAMILY = "diag" THEN <<>> ELSE IF FAMILY = "bytes" THEN ByteInputs(H(SEED, n + 17)) \o (IF G = ByteClassGrammar THEN WideByteInputs ELSE <<>>) ELSE Inputs(H(SEED, n + 17), G),
    plan |-> IF FAMILY = "diag" THEN <<>> ELSE Plan(G),
    hist |-> IF FAMILY = "diag" THEN <<>> ELSE Hists(H(SEED, n + 29), Len(Inputs(H(SEED, n + 17), G)) - (IF FAMILY = "reuse" THEN 2 ELSE 0)),
    inter |-> IF FAMILY = "diag" THEN <<>> ELSE Inters(H(SEED, n + 31), Len(Inputs(H(SEED, n + 17), G)) - (IF FAMILY = "reuse" THEN 2 ELSE 0)),
